@@ -90,6 +90,7 @@ fn main() {
         Some("hash-probe") => { c19::hash_probe(); },
         Some("m2-selftest") => std::process::exit(m2::selftest()),
         Some("c14-debug") => { c14::debug_print(); },
+        Some("c19-debug") => { c19::debug_print(); },
         Some("replay") => {
             let id = args[2].clone();
             let doc: serde_json::Value = serde_json::from_str(&std::fs::read_to_string(&args[3]).expect("read replay file")).expect("parse replay");
